@@ -457,15 +457,22 @@ pub fn gen_pattern_rx(d: &mut Dec, p: &GenParams) -> Rx {
     }
     let depth = 1 + d.below(p.max_depth);
     let mut budget = p.max_nodes;
-    gen_rx(d, p, depth, &mut budget)
+    let mut rx = gen_rx(d, p, depth, &mut budget);
+    crate::rx::cap_states(&mut rx, MAX_PATTERN_STATES);
+    rx
 }
+
+/// Bound on the estimated NFA size of one generated pattern or lookahead (long runs of 130 copies
+/// and counted repetitions around the powers of two up to 129 fit; their products do not).
+pub const MAX_PATTERN_STATES: u64 = 1_500;
 
 /// A lookahead expression that cannot match the empty string (domain rule 4): a nullable body is
 /// concatenated with a literal.
 pub fn gen_lookahead_rx(d: &mut Dec, p: &GenParams) -> Rx {
     let depth = d.below(3);
     let mut budget = 8;
-    let r = gen_rx(d, p, depth, &mut budget);
+    let mut r = gen_rx(d, p, depth, &mut budget);
+    crate::rx::cap_states(&mut r, MAX_PATTERN_STATES);
     if nullable(&r) {
         let c = gen_char(d);
         if d.bool() {
